@@ -149,23 +149,26 @@ def valid_size_rules(P, rep, rid):
     raises it: the zero-filled area is not parity."""
     from ..guards import guards_of
     rep.rule(rid, 'split->valid_size: initialised at open, raised only by parity_write, only lowered by a resize', 4)
-    ALLOWED = {'parity_create': 'init', 'parity_open': 'init', 'parity_write': 'raise', 'parity_handle_chsize': 'lower'}
     n = 0
     for f in P.defined():
         for i in f.all_insts():
             if i.op == 'store' and f.expr(i.ops[1]).endswith('->valid_size') and 'split' in f.expr(i.ops[1]):
                 n += 1
-                kind = ALLOWED.get(base(f.name))
                 gs = guards_of(f, i)
                 val = f.expr(i.ops[0])
-                if kind == 'init':
-                    ok = 'st.st_size' in val and f.loop_of(i.block) is not None
-                elif kind == 'raise':
-                    ok = any(a.replace(' ', '') == '(split->valid_size<%s)' % val.replace(' ', '') and p for a, p in gs)
-                elif kind == 'lower':
-                    ok = any(a.replace(' ', '') == '(split->valid_size>%s)' % val.replace(' ', '') and p for a, p in gs)
+                v_ = val.replace(' ', '')
+                raised = any(a.replace(' ', '') == '(split->valid_size<%s)' % v_ and p for a, p in gs)
+                lowered = any(a.replace(' ', '') == '(split->valid_size>%s)' % v_ and p for a, p in gs)
+                opens = any(True for _ in f.calls({'open', 'open_noatime'}))
+                writes = any(True for _ in f.calls('pwrite'))
+                # the kind is read off the assignment itself (not off the function's name): an unguarded assignment is an initialisation
+                # and belongs to the functions that open the file; a raise belongs to the write primitive; a lowering follows a resize
+                if raised:
+                    kind = 'raise'; ok = writes
+                elif lowered:
+                    kind = 'lower'; ok = not writes and not opens
                 else:
-                    ok = False
+                    kind = 'init'; ok = 'st.st_size' in val and opens and f.loop_of(i.block) is not None
                 rep.check(ok, rid, '%s: valid_size = %s (%s)' % (base(f.name), val, kind or 'unclassified'), i.loc(), 'guards: %s' % [g for g in gs if 'valid_size' in g[0]], function=base(f.name), construct='valid_size %s' % (kind or 'unclassified'))
                 rep.analysed(f)
     return n
@@ -218,6 +221,11 @@ def chsize_domain_rule(P, rep, rid, tier='quick'):
     P_MAP, P_MAC, PS_SIZE = off(dp, 'split_map'), off(dp, 'split_mac'), off(ds, 'size')
     BS = 4
     M64 = (1 << 64) - 1
+    # the effectful callee that resizes one split file: the defined function called from parity_chsize whose first parameter is a split handle
+    resize = {c.callee for c in f.calls() if c.callee_full in P.functions and not P.functions[c.callee_full].decl and P.functions[c.callee_full].args and 'snapraid_split_handle' in (P.functions[c.callee_full].args[0].get('ty') or '')}
+    if len(resize) != 1:
+        raise AnalysisBroken('parity_chsize: the per-split resize callee was not identified (%s)' % sorted(resize))
+    resize_name = list(resize)[0]
     bad = None
     nrun = 0
 
@@ -240,7 +248,7 @@ def chsize_domain_rule(P, rep, rid, tier='quick'):
                                 return (0,)
                             if cal == 'os_abort':
                                 raise Abort()
-                            if cal == 'parity_handle_chsize':
+                            if cal == resize_name:
                                 sp, run = args[0], RG.signed(args[1], 64)
                                 k = (sp.off - H_MAP) // dsp['size']
                                 cur = R.mem[(sp.reg, sp.off + S_ST)]
